@@ -108,7 +108,11 @@ func writeEvidence(cfg checkCfg, b *Built, ag *agg, corpus map[string][3]int, si
 			"faults_fired":                     faults,
 			"yield_site_coverage": map[string]any{
 				"sites_instrumented": len(b.Instr.Sites), "sites_executed": totalExec, "sites_preempted_at": totalPre, "per_package": perPkg,
-				"functions_never_entered": neverFuncs,
+				"functions_never_entered": append([]string{}, neverFuncs...),
+			},
+			"reverse_order_reference_check": map[string]any{
+				"note":           "every spec is also evaluated in reverse order by a second uninstrumented sequential process; the two reference tables must agree (history independence, decided without the simulator)",
+				"specs_compared": ag.refCompared,
 			},
 			"race_detector_reports":  ag.raceReports,
 			"harness_race_reports":   len(ag.harnessRaces),
@@ -154,7 +158,7 @@ func writeEvidence(cfg checkCfg, b *Built, ag *agg, corpus map[string][3]int, si
 			"channel-based synchronisation inside the library is not virtualised (exit 2 via watchdog, never a VIOLATION)",
 		},
 	}
-	dir := filepath.Join(verifDir(), "evidence")
+	dir := filepath.Join(outDir(), "evidence")
 	os.MkdirAll(dir, 0o755)
 	jb, err := json.MarshalIndent(ev, "", " ")
 	if err != nil {
